@@ -36,6 +36,9 @@ use vp_engine::runner::*;
 use vp_engine::tape::Tape;
 use vp_engine::{ensure, fail};
 
+#[path = "pq_gen.rs"]
+mod pq_gen;
+
 // =================================================================================================
 // file generator
 // =================================================================================================
@@ -70,6 +73,27 @@ pub fn type_cfg() -> TypeCfg {
         fixedbinary: false,
         nested_encoded: false,
         neg_scale: false,
+    }
+}
+
+/// wide mode (a share of the files): every leaf type of the committed writer grid (decimals of all widths, Float16,
+/// FixedSizeBinary, temporal types, intervals, unsigned, binary, large / view encodings) so that every physical type and
+/// every value decoder meets the selection / skip paths
+pub fn wide_type_cfg() -> TypeCfg {
+    TypeCfg {
+        decimal: true,
+        dec_small: true,
+        dec256: true,
+        interval: true,
+        temporal: true,
+        tz: true,
+        f16: true,
+        unsigned: true,
+        binary: true,
+        fixedbinary: true,
+        large: true,
+        view: true,
+        ..type_cfg()
     }
 }
 
@@ -321,8 +345,10 @@ fn shrink_small_ints(ty: &LType, v: &mut LValue) {
 }
 
 pub fn gen_file(c: &mut Case) -> Result<PqFile, Fail> {
+    let strict = c.strict;
     let t = &mut c.tape;
-    let cfg = type_cfg();
+    let wide = t.chance(90);
+    let cfg = if wide { wide_type_cfg() } else { type_cfg() };
     let ncols = *t.pick(&[1usize, 2, 2, 3, 3, 4]);
     // 0: flat file, 1: free choice, 2: first column nested, 3: first column a list, 4: first column a list of structs
     let shape = *t.pick(&[1usize, 0, 2, 3, 1, 0, 4, 3]);
@@ -348,6 +374,24 @@ pub fn gen_file(c: &mut Case) -> Result<PqFile, Fail> {
         };
         let nullable = !t.chance(48);
         fields.push(LField { name: format!("c{}", i), ty, nullable });
+    }
+    let mut wide_excluded: Vec<&'static str> = vec![];
+    if wide {
+        // stay inside the committed writer grid and away from the shapes of the open C05 findings (reported there)
+        for f in fields.iter_mut() {
+            let bad = !pq_gen::grid_supports(&f.ty) || pq_gen::unclaimed(&f.ty) || f.ty.any(&|x| matches!(x, LType::FixedBinary(0)));
+            let known = if strict { None } else { pq_gen::known_defect(&f.ty) };
+            if let Some(k) = known {
+                wide_excluded.push(k);
+            }
+            if bad || known.is_some() {
+                f.ty = LType::Int { bits: 32, signed: true };
+            }
+            if !strict && pq_gen::unmasked_null_shape(f) {
+                wide_excluded.push("C05-reader-unmasked-nulls");
+                f.ty = LType::Int { bits: 32, signed: true };
+            }
+        }
     }
     // a type search that failed falls back to Int32; make sure there is the promised list
     if shape == 3 && !matches!(fields[0].ty, LType::List(..)) {
@@ -377,7 +421,7 @@ pub fn gen_file(c: &mut Case) -> Result<PqFile, Fail> {
     let stats = *t.pick(&[EnabledStatistics::Page, EnabledStatistics::Chunk, EnabledStatistics::None, EnabledStatistics::Page]);
     let oi_disabled = t.chance(64);
     let snappy = t.chance(48);
-    let props = WriterProperties::builder()
+    let mut pb = WriterProperties::builder()
         .set_writer_version(if v2 { WriterVersion::PARQUET_2_0 } else { WriterVersion::PARQUET_1_0 })
         .set_data_page_row_count_limit(page_rows)
         .set_write_batch_size(wbs)
@@ -387,8 +431,46 @@ pub fn gen_file(c: &mut Case) -> Result<PqFile, Fail> {
         .set_statistics_enabled(stats)
         .set_offset_index_disabled(oi_disabled)
         .set_compression(if snappy { Compression::SNAPPY } else { Compression::UNCOMPRESSED })
-        .set_max_row_group_row_count(None)
-        .build();
+        .set_max_row_group_row_count(None);
+    let mut col_overrides = vec![];
+    if wide {
+        // per-column value encodings (every encoding the format allows for the physical type) and dictionary switches
+        let arrow_schema = schema_of(&fields, None);
+        let descr = pq_gen::parquet_schema(&arrow_schema)?;
+        let mut leaves = vec![];
+        for f in &fields {
+            pq_gen::leaves_of(&f.ty, &mut leaves);
+        }
+        if leaves.len() == descr.num_columns() {
+            for (i, col) in descr.columns().iter().enumerate() {
+                let path = col.path().clone();
+                if t.chance(110) {
+                    let legal = pq_gen::legal_encodings(col.physical_type(), &leaves[i]);
+                    let e = *t.pick(&legal);
+                    pb = pb.set_column_encoding(path.clone(), e);
+                    col_overrides.push(format!("{}:{:?}", path.string(), e));
+                }
+                if t.chance(100) {
+                    pb = pb.set_column_dictionary_enabled(path.clone(), false);
+                    col_overrides.push(format!("{}:no-dict", path.string()));
+                }
+            }
+        }
+    }
+    let props = pb.build();
+    if wide {
+        c.classes.push("file:wide-types".to_string());
+        for o in &col_overrides {
+            let k = o.rsplit(':').next().unwrap_or("");
+            let cl = format!("col-override:{}", k);
+            if !c.classes.contains(&cl) {
+                c.classes.push(cl);
+            }
+        }
+        for k in &wide_excluded {
+            c.excluded.push(k.to_string());
+        }
+    }
     // Known finding "delta-skip" (DeltaBitPackDecoder::skip, 32-bit physical type): a run of equal non-zero
     // wrapping deltas d with |d| * (values skipped in the mini block) > i32::MAX makes skip() fail with
     // "delta*n overflow in skip" although get() decodes the same page. The V2 writer uses DELTA_BINARY_PACKED
